@@ -19,7 +19,7 @@ Definition Qops : NumOps Q :=
 
 (* one variable, bins [lower, lower+1) and [lower+1, lower+2), fullSamples 2, minSamples 1, updateBias on *)
 Definition cfg1 (lower : Q) (periodic apply same sub hidej other : bool) : @abf_cfg Q :=
-  @mkCfg Q 1%nat [lower] [1] [2%Z] [periodic] 2 1 apply true false [0] false same [sub] hidej [other].
+  @mkCfg Q 1%nat [lower] [1] [2%Z] [periodic] 2 1 apply true false [0] false same [sub] hidej [other] false (fun _ => 1).
 Definition inp (x e o j : Q) (boundary : bool) : @abf_in Q := @mkIn Q [x] [e] [o] [j] boundary.
 
 (* E1: subtractAppliedForce, lagged forces.  Step 0: value 1/2, engine force -1, a restraint applies +1:
@@ -32,7 +32,7 @@ Definition e1_hist := [inp (1#2) (-(1)) 1 0 false; inp (1#2) (2#1) 1 0 false; in
 (* E2: the ABF force itself cancels the engine force.  minSamples 0 / fullSamples 1, applyBias on,
    subtractAppliedForce, lagged.  Steps 0,1: engine force 2 -> at step 2 the bin holds one sample 2 and the
    ABF force is -2; the engine force of step 2 is +2: measured total force exactly 0, sample 0 - (-2) = 2. *)
-Definition e2_cfg : @abf_cfg Q := @mkCfg Q 1%nat [0] [1] [2%Z] [false] 1 0 true true false [0] false false [true] false [false].
+Definition e2_cfg : @abf_cfg Q := @mkCfg Q 1%nat [0] [1] [2%Z] [false] 1 0 true true false [0] false false [true] false [false] false (fun _ => 1).
 Definition e2_hist := [inp (1#2) (2#1) 0 0 false; inp (1#2) (2#1) 0 0 false; inp (1#2) (2#1) 0 0 false; inp (1#2) (2#1) 0 0 false].
 
 (* E3: one periodic variable, 2 bins, minSamples 1, fullSamples 2, same-step forces; one sample of force 2
@@ -47,7 +47,7 @@ Definition force_in (c : @abf_cfg Q) (h : list (@abf_in Q)) (b : Z) : Q :=
 (* E3b: the same grid during the ramp, fullSamples 4, minSamples 0: 4 samples (2, 2, 4, 4) in bin [0]
    (full: estimate -3), 2 samples of force 1 in bin [1] (ramp 1/2: ramped estimate -1/2); the average of the
    ramped estimates is -7/4: forces -5/4 and +5/4, non-zero and opposite *)
-Definition e3b_cfg : @abf_cfg Q := @mkCfg Q 1%nat [0] [1] [2%Z] [true] 4 0 true true false [0] false true [false] false [false].
+Definition e3b_cfg : @abf_cfg Q := @mkCfg Q 1%nat [0] [1] [2%Z] [true] 4 0 true true false [0] false true [false] false [false] false (fun _ => 1).
 Definition e3b_hist := [inp (1#2) 0 0 0 false; inp (1#2) (2#1) 0 0 false; inp (1#2) (2#1) 0 0 false; inp (1#2) (4#1) 0 0 false;
                         inp (1#2) (4#1) 0 0 false; inp (3#2) 1 0 0 false; inp (3#2) 1 0 0 false].
 
@@ -60,6 +60,13 @@ Definition e4_hist := [inp (1#2) 1 0 (3#1) false; inp (1#2) 1 0 (3#1) false; inp
 (* and the same history in the lagged convention *)
 Definition e4l_cfg := cfg1 0 false true false false true false.
 Definition e4l_hist := e4_hist ++ [inp (1#2) 1 0 (3#1) false].
+
+(* E6: scaledBiasingForce with the factor 1/2 in every bin, lagged forces, minSamples 0, fullSamples 1,
+   engine force 2 at every step: the ABF force is -2, the variable receives -1, the measured force is 1 and
+   every sample is 1 - (-1) = 2.  (Before the fix the unscaled -2 was subtracted: samples 2, 3, 13/4.) *)
+Definition e6_cfg : @abf_cfg Q :=
+  @mkCfg Q 1%nat [0] [1] [2%Z] [false] 1 0 true true false [0] false false [false] false [false] true (fun _ => 1#2).
+Definition e6_hist := [inp (1#2) (2#1) 0 0 false; inp (1#2) (2#1) 0 0 false; inp (1#2) (2#1) 0 0 false; inp (1#2) (2#1) 0 0 false].
 
 (* W5 (a defect of the tree, known_findings.txt sample:hideJacobian-without-applied-force): hideJacobian,
    lagged forces, applyBias off and no other bias on the variable: colvar::f = -fj is computed and reported but
@@ -76,7 +83,7 @@ Definition stored_cnt (c : @abf_cfg Q) (h : list (@abf_in Q)) (b : idx) : Z := s
 Definition spec_cnt (c : @abf_cfg Q) (h : list (@abf_in Q)) (b : idx) : Z :=
   cnt_of b (attributed Qops c (trace_of Qops c h)).
 Definition last_applied (c : @abf_cfg Q) (h : list (@abf_in Q)) : Q :=
-  vget Qops (o_f (last (snd (abf_run Qops c h)) (mkOut [] [] [] 0%Z false []))) 0.
+  vget Qops (o_f (last (snd (abf_run Qops c h)) (mkOut [] [] [] [] 0%Z false []))) 0.
 
 Lemma e1_values :
   stored_cnt e1_cfg e1_hist [0%Z] = 2%Z /\ spec_cnt e1_cfg e1_hist [0%Z] = 2%Z /\
@@ -111,4 +118,11 @@ Lemma w5_refutes :
   stored_cnt w5_cfg w5_hist [0%Z] = 2%Z /\ spec_cnt w5_cfg w5_hist [0%Z] = 2%Z /\
   Qeq_bool (stored_sum w5_cfg w5_hist [0%Z] 0) (-(8#1)) = true /\
   Qeq_bool (spec_sum w5_cfg w5_hist [0%Z] 0) (-(2#1)) = true.
+Proof. vm_compute. repeat split; reflexivity. Qed.
+
+Lemma e6_values :
+  stored_cnt e6_cfg e6_hist [0%Z] = 3%Z /\ spec_cnt e6_cfg e6_hist [0%Z] = 3%Z /\
+  Qeq_bool (stored_sum e6_cfg e6_hist [0%Z] 0) (-(6#1)) = true /\
+  Qeq_bool (spec_sum e6_cfg e6_hist [0%Z] 0) (-(6#1)) = true /\
+  Qeq_bool (last_applied e6_cfg e6_hist) (-(1)) = true.
 Proof. vm_compute. repeat split; reflexivity. Qed.
